@@ -718,6 +718,32 @@ type diffItem struct {
 	graph, key, got, want string
 }
 
+// listDelta renders two %q-formatted name lists by their difference.
+func listDelta(got, want string) (string, string) {
+	set := func(s string) map[string]bool {
+		m := map[string]bool{}
+		for _, f := range strings.Fields(strings.Trim(s, "[]")) {
+			m[f] = true
+		}
+		return m
+	}
+	g, w := set(got), set(want)
+	var extra, missing []string
+	for k := range g {
+		if !w[k] {
+			extra = append(extra, k)
+		}
+	}
+	for k := range w {
+		if !g[k] {
+			missing = append(missing, k)
+		}
+	}
+	sort.Strings(extra)
+	sort.Strings(missing)
+	return fmt.Sprintf("(%d names; not in the model: %v)", len(g), extra), fmt.Sprintf("(%d names; not stored: %v)", len(w), missing)
+}
+
 func diffSnap(got, want snapshot) []diffItem {
 	var out []diffItem
 	gs := map[string]bool{}
@@ -1053,7 +1079,12 @@ func runCase(t pbt.TB, c Case) {
 			if gname == listKey {
 				gname = "(graph listing)"
 			}
-			if !disc(sig, "%s (accepted=%v %s): graph %q observation %q: stored=%s model=%s (%d differences in all)", where, accepted, clip(strings.Join(strings.Fields(detail), " "), 300), gname, clip(fmt.Sprintf("%+q", d.key), 200), clip(fmt.Sprintf("%+q", d.got), 600), clip(fmt.Sprintf("%+q", d.want), 600), len(diffs)) {
+			gotText, wantText := clip(fmt.Sprintf("%+q", d.got), 600), clip(fmt.Sprintf("%+q", d.want), 600)
+			if strings.HasSuffix(d.key, "[others]") {
+				// long listings: show what was added and what is missing
+				gotText, wantText = listDelta(d.got, d.want)
+			}
+			if !disc(sig, "%s (accepted=%v %s): graph %q observation %q: stored=%s model=%s (%d differences in all)", where, accepted, clip(strings.Join(strings.Fields(detail), " "), 300), gname, clip(fmt.Sprintf("%+q", d.key), 200), gotText, wantText, len(diffs)) {
 				continue
 			}
 		}
